@@ -11,6 +11,10 @@ def cmd_gentables(argv):
     path = translate.write_gentables(text)
     print(path)
     try:
+        print(translate.write_gentemplates(translate.generate_templates()[0]))
+    except translate.TranslateError as e:
+        common.log("GenTemplates translation failed: %s" % e)
+    try:
         print(translate.write_genlib(translate.generate_lib()))
     except translate.TranslateError as e:
         # reported by the property checks; setup keeps the previous GenLib.v
